@@ -13,6 +13,7 @@ import (
 	"fmt"
 	"io"
 	"net"
+	"net/netip"
 	"strings"
 	"time"
 
@@ -30,10 +31,60 @@ const sigAssocUnspec = "udp-associate-request-unspecified-address-accepted"
 // the report and hide the others.
 var perSig = map[string]int{}
 
-func failOnce(r *vh.Run, sig, what string, c interface{}) {
-	if perSig[sig]++; perSig[sig] <= 4 {
+func failOnce(r *vh.Run, sig, what string, c interface{}) { failKey(r, sig, sig, what, c) }
+
+// failKey: like failOnce, but the cap is counted per key (sig + level of observation).
+func failKey(r *vh.Run, key, sig, what string, c interface{}) {
+	if perSig[key]++; perSig[key] <= 4 {
 		r.Fail(sig, what, c)
 	}
+}
+
+const (
+	sigDomainLiteral = "domain-typed-ip-literal-not-rejected"
+	sigTrailingDot   = "local-name-trailing-dot-not-rejected"
+)
+
+// localSig chooses the cause signature of a local destination that was not refused.
+func localSig(cl class, fallback string) string {
+	switch cl.kind {
+	case "dlit":
+		return sigDomainLiteral
+	case "dot":
+		return sigTrailingDot
+	}
+	return fallback
+}
+
+// dialLiteral is what Go's resolver and dialer make of a host string without any lookup:
+// netip.ParseAddr (zone allowed on IPv6), zone dropped, IPv4-mapped unmapped. nil = not an IP literal.
+func dialLiteral(host []byte) []byte {
+	a, err := netip.ParseAddr(string(host))
+	if err != nil {
+		return nil
+	}
+	return a.WithZone("").Unmap().AsSlice()
+}
+
+var litSeen = map[string]bool{}
+
+// registerLiteral tells the model runner the literal reading of a domain string (L line), once.
+func registerLiteral(r *vh.Run, host []byte) {
+	if len(host) == 0 || litSeen[string(host)] {
+		return
+	}
+	litSeen[string(host)] = true
+	if ip := dialLiteral(host); ip != nil {
+		r.Case(fmt.Sprintf("L %s %s", vh.Hex(host), vh.Hex(ip)), "-")
+	}
+}
+
+// fqdnOf extracts the domain of a request / datagram address (address type 3), nil if there is none.
+func fqdnOf(addr []byte) []byte {
+	if len(addr) >= 2 && addr[0] == 3 && len(addr) >= 2+int(addr[1]) {
+		return addr[2 : 2+int(addr[1])]
+	}
+	return nil
 }
 
 var nAssocUnspec int // the deliberate exception is reported a few times only, so that it cannot crowd out other failures
@@ -149,7 +200,7 @@ func (c *cfg) server(mode socks5.UDPAssociateMode) *socks5.Server {
 		Users: users, Egress: eg, AllowLoopbackDestination: c.allowLoop,
 		AuthOpts:         socks5.Auth{ClientSideAuthentication: true},
 		HandshakeTimeout: 2 * time.Second, UDPAssociateMode: mode,
-		Resolver: apicommon.HostMapResolver{Hosts: map[string]net.IP{
+		Resolver: apicommon.HostMapResolver{Resolver: &net.Resolver{}, Hosts: map[string]net.IP{
 			"localhost": net.IPv4(127, 0, 0, 1), "example.com": net.IPv4(192, 0, 2, 2), "a.example.com": net.IPv4(192, 0, 2, 2), "pub.test": net.IPv4(192, 0, 2, 2),
 		}},
 	})
@@ -346,7 +397,24 @@ func destinations(g *vh.Rng, thorough bool) (boundary, names, public []dest) {
 			names = append(names, dest{3, []byte(p), "name:" + n})
 		}
 	}
-	for _, n := range []string{"localhost.", "localhos", "xlocalhost", "localhost.com", "example.com", "a.example.com", "EXAMPLE.com", "xexample.com", "com", "LOCALHOSTK", "ip6-loopbacK", "*", "127.0.0.1", "a", strings.Repeat("x", 255)} {
+	// address type 3 (domain) whose text is an IP literal: the resolver and the dialer take it as that IP without a lookup
+	for _, l := range []struct{ text, cls string }{
+		{"127.0.0.1", "loop"}, {"127.0.0.0", "loop"}, {"127.255.255.255", "loop"}, {"::1", "loop"}, {"0:0:0:0:0:0:0:1", "loop"}, {"::ffff:127.0.0.1", "loop"}, {"::FFFF:7f00:1", "loop"}, {"::1%lo", "loop"}, {"::1%eth0", "loop"},
+		{"10.0.0.0", "priv"}, {"10.1.2.3", "priv"}, {"10.255.255.255", "priv"}, {"172.16.0.0", "priv"}, {"172.31.255.255", "priv"}, {"192.168.0.0", "priv"}, {"192.168.255.255", "priv"},
+		{"fc00::", "priv"}, {"fd00::2", "priv"}, {"FDFF:FFFF:FFFF:FFFF:FFFF:FFFF:FFFF:FFFF", "priv"}, {"fd00::2%eth0", "priv"}, {"::ffff:10.1.2.3", "priv"}, {"::ffff:192.168.1.1", "priv"},
+		{"0.0.0.0", "unspec"}, {"::", "unspec"}, {"::ffff:0.0.0.0", "unspec"}, {"::%lo", "unspec"},
+	} {
+		boundary = append(boundary, dest{3, []byte(l.text), "dlit-" + l.cls + ":" + l.text})
+	}
+	// the absolute spelling (one trailing dot) of every well-known name, in several letter cases
+	for _, n := range append(socks5.VerifC12WellKnownIPv4LocalDomainNames(), socks5.VerifC12WellKnownIPv6LocalDomainNames()...) {
+		for _, p := range casePatterns(n, 4, g) {
+			boundary = append(boundary, dest{3, []byte(p + "."), "dot:" + n})
+		}
+	}
+	for _, n := range []string{"localhost..", ".localhost", ".", "localhost.x.", "localhos", "xlocalhost", "localhost.com", "example.com", "a.example.com", "EXAMPLE.com", "xexample.com", "com", "LOCALHOSTK", "ip6-loopbacK", "*", "a", strings.Repeat("x", 255),
+		// IP literals outside the property's classes, and strings that are no literals
+		"8.8.8.8", "192.0.2.2", "2001:4860::8888", "fe80::1%eth0", "172.32.0.0", "126.255.255.255", "::ffff:8.8.8.8", "127.0.0.1%lo", "127.1", "[::1]", "::1%", "0x7f.0.0.1", "127.0.0.1.", "1::1::1"} {
 		public = append(public, dest{3, []byte(n), "pub-name:" + n[:min(len(n), 12)]})
 	}
 	return
@@ -361,7 +429,10 @@ func min(a, b int) int {
 
 // ---------------------------------------------------------------- oracle (property text; independent of the model)
 
-type class struct{ loop, priv, unspec bool }
+type class struct {
+	loop, priv, unspec bool
+	kind               string // "" | "dlit" (domain-typed IP literal) | "dot" (well-known name with a trailing dot)
+}
 
 func classify(d dest) class {
 	if d.atyp == 3 {
@@ -372,6 +443,17 @@ func classify(d dest) class {
 			if len(n) == len(d.host) && bytes.EqualFold([]byte(n), d.host) && isASCII(d.host) {
 				return class{loop: true}
 			}
+			// the absolute spelling of the same name
+			if len(n)+1 == len(d.host) && d.host[len(n)] == '.' && bytes.EqualFold([]byte(n), d.host[:len(n)]) && isASCII(d.host) {
+				return class{loop: true, kind: "dot"}
+			}
+		}
+		if a, err := netip.ParseAddr(string(d.host)); err == nil {
+			a = a.WithZone("").Unmap()
+			if a.IsUnspecified() {
+				return class{loop: true, unspec: true, kind: "dlit"}
+			}
+			return class{loop: a.IsLoopback(), priv: a.IsPrivate(), kind: "dlit"}
 		}
 		return class{}
 	}
@@ -476,6 +558,9 @@ func main() {
 		if user != "" {
 			in.Env = map[string]string{"user": user}
 		}
+		if len(data) > 3 {
+			registerLiteral(r, fqdnOf(data[3:]))
+		}
 		a := s.FindAction(ctx, in)
 		px := "nil"
 		if a.Proxy != nil {
@@ -500,7 +585,8 @@ func main() {
 				}
 				failOnce(r, sigAssocUnspec, "UDP ASSOCIATE request naming the unspecified address is not answered 'not allowed by ruleset' for a user without loopback access (deliberate: RFC 1928 all-zero address; nothing is sent there)", cs)
 			case local:
-				failOnce(r, "local-destination-not-rejected:"+strings.SplitN(d.tag, "/", 2)[0][:min(len(strings.SplitN(d.tag, "/", 2)[0]), 14)], fmt.Sprintf("FindAction=%d for local destination %s, user %q without the permission", int32(a.Action), d.tag, user), cs)
+				sig := localSig(cl, "local-destination-not-rejected:"+strings.SplitN(d.tag, "/", 2)[0][:min(len(strings.SplitN(d.tag, "/", 2)[0]), 14)])
+				failKey(r, sig+"|F|"+strings.SplitN(d.tag, ":", 2)[0], sig, fmt.Sprintf("FindAction=%d for local destination %s, user %q without the permission", int32(a.Action), d.tag, user), cs)
 			default:
 				failOnce(r, "rule-list-not-first-match", fmt.Sprintf("FindAction=%d, rule list says %d for %s user %q", int32(a.Action), want, d.tag, user), cs)
 			}
@@ -548,7 +634,7 @@ func main() {
 
 	endToEnd(r)
 
-	r.Rep.Rule = "FindAction on every boundary address of 127/8, 10/8, 172.16/12, 192.168/16 (first, last, one below, one above) in 4-byte and IPv4-mapped form, fc00::/7 boundaries, ::1, ::, 0.0.0.0, near-mapped prefixes, the empty host, every well-known name in all 2^n letter-case patterns ('localhost' always; the others sampled in quick, complete up to 10 letters in thorough), look-alike and public names x commands {1,3,2,9} x users {unknown, unregistered, none, priv, loop, both} x 6 fixed + generated rule lists (CIDR incl. mapped and invalid, suffix, '*', overlapping, PROXY/DIRECT/REJECT/unknown action); truncated and malformed requests; plus the real server (ServeConn) with TCP and UDP listeners on loopback, fd00::2 and 192.0.2.2 observing reply codes, accepted connections and the arrival of relayed datagrams. Non-trivial = (destination tag, command, user, action, rule count) where the destination is local or the action is not DIRECT."
+	r.Rep.Rule = "FindAction on every boundary address of 127/8, 10/8, 172.16/12, 192.168/16 (first, last, one below, one above) in 4-byte and IPv4-mapped form, fc00::/7 boundaries, ::1, ::, 0.0.0.0, near-mapped prefixes, the empty host, domain-typed IP literals of every class (loopback, 10/8, 172.16/12, 192.168/16, fc00::/7, mapped, unspecified; with and without zone) and absolute spellings (trailing dot) of the well-known names, public and malformed literals as controls, every well-known name in all 2^n letter-case patterns ('localhost' always; the others sampled in quick, complete up to 10 letters in thorough), look-alike and public names x commands {1,3,2,9} x users {unknown, unregistered, none, priv, loop, both} x 6 fixed + generated rule lists (CIDR incl. mapped and invalid, suffix, '*', overlapping, PROXY/DIRECT/REJECT/unknown action); truncated and malformed requests; plus the real server (ServeConn) with TCP and UDP listeners on loopback, fd00::2 and 192.0.2.2 observing reply codes, accepted connections and the arrival of relayed datagrams. Non-trivial = (destination tag, command, user, action, rule count) where the destination is local or the action is not DIRECT."
 	r.Rep.Exhaustive = false
 	r.Finish()
 }
@@ -634,8 +720,15 @@ func endToEnd(r *vh.Run) {
 	r.Case(c.line(), "-")
 	for _, u := range userNames {
 		ds := append([]dest{}, local...)
+		// domain-typed IP literals and absolute spellings of the local names: what the dialer makes of them
+		for _, t := range []string{"127.0.0.1", "127.255.255.254", "::1", "::ffff:127.0.0.1", "::1%lo", "0.0.0.0", "::", "localhost.", "LOCALHOST.", "LocalHost."} {
+			ds = append(ds, dest{3, []byte(t), "dname:" + t})
+		}
+		if hasPriv {
+			ds = append(ds, dest{3, []byte("fd00::2"), "dname:fd00::2"}, dest{3, []byte("FD00::2%eth0"), "dname:FD00::2%eth0"})
+		}
 		if hasPub {
-			ds = append(ds, pub)
+			ds = append(ds, pub, dest{3, []byte("192.0.2.2"), "dname:192.0.2.2"})
 		}
 		for _, d := range ds {
 			s := c.server(socks5.UDPAssociateModePacketOverStream)
@@ -643,6 +736,7 @@ func endToEnd(r *vh.Run) {
 			done := make(chan struct{})
 			go func() { s.ServeConn(userConn{srv, u}); close(done) }()
 			data := append([]byte{5, 1, 0}, d.withPort(sk.port)...)
+			registerLiteral(r, fqdnOf(data[3:]))
 			cli.SetDeadline(time.Now().Add(3 * time.Second))
 			go cli.Write(data)
 			rep := make([]byte, 4)
@@ -668,7 +762,8 @@ func endToEnd(r *vh.Run) {
 			want, isLocal := expect(c, u, 1, d)
 			r.Distinct(fmt.Sprintf("S|%s|%s|%d|%d", d.tag, u, code, acc))
 			if isLocal && (code != 2 || acc != 0) {
-				failOnce(r, "connect-to-local-destination:"+strings.SplitN(d.tag, "/", 2)[0], fmt.Sprintf("CONNECT to %s by user %q without the permission: reply %d, connection opened=%d (want reply 2 'not allowed by ruleset', no connection)", d.tag, u, code, acc),
+				sig := localSig(classify(d), "connect-to-local-destination:"+strings.SplitN(d.tag, "/", 2)[0])
+				failKey(r, sig+"|S|"+d.tag, sig, fmt.Sprintf("CONNECT to %s by user %q without the permission: reply %d, connection opened=%d (want reply 2 'not allowed by ruleset', no connection)", d.tag, u, code, acc),
 					map[string]interface{}{"user": u, "data": hex.EncodeToString(data), "reply": code, "accepted": acc})
 			}
 			if !isLocal && want == aDIRECT && (code != 0 || acc != 1) {
@@ -795,6 +890,14 @@ func relayEndToEnd(r *vh.Run, c *cfg, hasPriv, hasPub bool) {
 	if hasPriv {
 		seq = append(seq, priv6, name("example.com"), priv6, pub, name("pub.test"))
 	}
+	// domain-typed headers that the resolver / dialer take as local addresses without a lookup
+	for _, t := range []string{"127.0.0.1", "::1", "::ffff:127.0.0.1", "0.0.0.0", "::1%lo", "localhost.", "LOCALHOST."} {
+		seq = append(seq, dest{3, []byte(t), "dname:" + t}, name("example.com"))
+	}
+	if hasPriv {
+		seq = append(seq, dest{3, []byte("fd00::2"), "dname:fd00::2"})
+	}
+	seq = append(seq, dest{3, []byte("192.0.2.2"), "dname:192.0.2.2"})
 	seq = append(seq, loop4, pub) // the last one is the sentinel
 
 	arrivals := make(chan arrival, 1024)
@@ -826,6 +929,9 @@ func relayEndToEnd(r *vh.Run, c *cfg, hasPriv, hasPub bool) {
 	var pktsHex []string
 	for i := range seq {
 		pktsHex = append(pktsHex, vh.Hex(pkt(i)))
+		if seq[i].atyp == 3 {
+			registerLiteral(r, seq[i].host)
+		}
 	}
 
 	for _, mode := range []socks5.UDPAssociateMode{socks5.UDPAssociateModePacketOverStream, socks5.UDPAssociateModeDatagram} {
@@ -916,8 +1022,12 @@ func relayEndToEnd(r *vh.Run, c *cfg, hasPriv, hasPub bool) {
 					"header_dest": d.tag, "header": hex.EncodeToString(d.withPort(ports[a.idx])), "arrived_at": fmt.Sprintf("%s port %d", a.addr, a.port)}
 				// the property itself: whatever the header named, nothing may reach a loopback / private address
 				if a.kind == "loop" && !mayLoop || a.kind == "priv" && !mayPriv {
+					if k := classify(d).kind; k != "" && expectKind(d) == a.kind {
+						sig := localSig(classify(d), "")
+						failKey(r, sig+"|R|"+modeName+d.tag, sig, fmt.Sprintf("%s mode, user %q without the permission: datagram #%d with domain-typed header %q was delivered to %s:%d", modeName, u, a.idx, string(d.host), a.addr, a.port), cs)
+					}
 					failOnce(r, "udp-relay-datagram-reached-local-listener:"+a.kind, fmt.Sprintf("%s mode, user %q without the permission: datagram #%d (header %s) arrived at %s:%d", modeName, u, a.idx, d.tag, a.addr, a.port), cs)
-					if expectKind(d) == a.kind {
+					if expectKind(d) == a.kind && classify(d).kind == "" {
 						failOnce(r, "udp-relay-datagram-to-local-dest:"+strings.SplitN(d.tag, "/", 2)[0], fmt.Sprintf("datagram relayed to %s in a UDP association (%s mode) of user %q without the permission", d.tag, modeName, u), cs)
 					}
 				} else if a.kind != expectKind(d) || a.port != ports[a.idx] {
@@ -932,7 +1042,7 @@ func relayEndToEnd(r *vh.Run, c *cfg, hasPriv, hasPub bool) {
 				_, isLocal := expect(c, u, 1, d) // a datagram's destination is judged like a CONNECT to it
 				r.Distinct(fmt.Sprintf("R|%s|%s|%s|%v", modeName, d.tag, u, seen[i]))
 				r.Count("R/" + modeName + "/datagram")
-				if !isLocal && !seen[i] && (expectKind(d) == "pub" || d.tag == "loop/v4" || d.tag == "name:localhost") {
+				if !isLocal && !seen[i] && (expectKind(d) == "pub" || d.tag == "loop/v4" || d.tag == "name:localhost" || strings.HasPrefix(d.tag, "dname:")) {
 					failOnce(r, "allowed-datagram-affected", fmt.Sprintf("%s mode: datagram #%d to %s by user %q did not arrive", modeName, i, d.tag, u), map[string]interface{}{"user": u, "mode": modeName, "datagrams": pktsHex, "index": i})
 				}
 			}
